@@ -250,7 +250,9 @@ def anon_context_family(rnd, first_id, n):
             fields[-3] = A.field("d", A.t_arr(elem, A.L_expr(rnd.choice(lens))))
             fields[-2] = A.field("e", A.t_arr(u8, A.L_expr(rnd.choice(lens))))
         t = A.t_struct("AN", fields)
-        scn = {"type": t, "mode": mode, "consts": {}, "defs": A.render(t, {})}
+        # constants of the same names: the (folded) fields win (finding F43)
+        consts = {"n": rnd.randrange(0, 4), "m": 1, "q": 2} if rnd.random() < 0.4 else {}
+        scn = {"type": t, "mode": mode, "consts": consts, "defs": A.render(t, consts)}
         start = codec.start_for(rnd, scn)
         out.append(codec.parse_record(first_id + len(out), scn, codec.gen_input(rnd, start, maxlen=40), start, rnd.random() < 0.5, both=True))
     return out
